@@ -395,16 +395,19 @@ theorem decProtected_modelled {p : Wire} {pm : GoMap} (h : decProtected p = .ok 
         · rename_i hw' kvs hpt
           cases hl : labelsOK kvs [] with
           | ok u =>
+            simp only [hl, bind, Out.bind] at h
+            split at h
+            · cases h
             cases hd : decodePairs kvs [] with
             | ok m0 =>
-              simp only [hl, hd, bind, Out.bind] at h
+              simp only [hd] at h
               split at h
               · cases h
               · cases h
                 exact castAlg_MP (decodePairs_modelled kvs [] m0 hd (by intro e he; cases he))
-            | err e => simp [hl, hd, bind, Out.bind] at h
-            | panic => simp [hl, hd, bind, Out.bind] at h
-            | unmodelled => simp [hl, hd, bind, Out.bind] at h
+            | err e => simp [hd] at h
+            | panic => simp [hd] at h
+            | unmodelled => simp [hd] at h
           | err e => simp [hl, bind, Out.bind] at h
           | panic => simp [hl, bind, Out.bind] at h
           | unmodelled => simp [hl, bind, Out.bind] at h
@@ -918,10 +921,12 @@ theorem ex_decP : decProtected exP = .ok [(lbl 1, .alg (-7))] := by
     maxNested, maxElems, labelsOK, maxInt64, GoVal.keyEq, decodePairs, decodeAny, keyHashable,
     validateHeaderParameters, validateLoop, normalizeLabel, wrap64, checkParam, castAlg, algorithmOf,
     lookupLabel, GoMap.lookup, lbl, GoMap.set, GoMap.has, bind, Out.bind, canInt, canTstr,
-    IntKind.signed]
+    IntKind.signed, Wire.stripSelfDescribed,
+    (by decide : headerLabelsUntagged [0xa1, 0x01, 0x26] = true)]
 
 theorem ex_decU : decUnprot exU = .ok [] := by
-  simp [exU, decUnprot, labelsOK, decUnprotPairs, validateHeaderParameters, validateLoop]
+  simp [exU, decUnprot, labelsOK, decUnprotPairs, validateHeaderParameters, validateLoop,
+    (by decide : headerLabelsUntagged (Wire.map .imm []).bytes = true)]
 
 theorem ex_hh : decHeaders exP exU = .ok exH :=
   C09.decHeaders_of ex_decP ex_decU (by decide)
